@@ -284,3 +284,26 @@ FILL("awkward_NumpyArray_contiguous_init", "toptr", "skip", "@*stride", serves=[
 K("awkward_NumpyArray_contiguous_next",
   store_asserts={"topos": ["at == i*skip + j", "value == frompos[i] + j*stride"]},
   serves=["C02", "C12", "C13"])
+
+
+# ---- byte copies (memcpy is a built-in of the VC generator: both ranges inside their arrays, destination range = source bytes)
+K("awkward_NumpyArray_copy",
+  extents={"toptr": "len", "fromptr": "len"},
+  ensures_ok=["forall(q, 0, len, toptr[q] == fromptr[q])"],
+  serves=["C02", "C12", "C13"])
+
+K("awkward_NumpyArray_contiguous_copy",
+  extents={"toptr": "len * stride", "pos": "len", "fromptr": "ghost_nfrom"},
+  ghost={"ghost_nfrom": ([], None)},
+  requires=["forall(q, 0, len, 0 <= pos[q] and pos[q] + stride <= ghost_nfrom)"],
+  loops={"L0": ["0 <= i"]},
+  notes="the source buffer's byte length is not a parameter: it is the ghost ghost_nfrom the caller's positions must stay below",
+  serves=["C02", "C12", "C13"])
+
+K("awkward_NumpyArray_getitem_next_null",
+  extents={"toptr": "len * stride", "pos": "len", "fromptr": "ghost_nfrom"},
+  ghost={"ghost_nfrom": ([], None)},
+  requires=["forall(q, 0, len, 0 <= pos[q] and pos[q] * stride + stride <= ghost_nfrom)"],
+  loops={"L0": ["0 <= i"]},
+  notes="the source buffer's byte length is not a parameter: it is the ghost ghost_nfrom the caller's positions must stay below",
+  serves=["C01", "C12", "C13"])
